@@ -68,6 +68,25 @@ HOLES = [
     ('toplevel', T2 + '§\n' + 'Ref: t.id > u.id\n', False),
 ]
 
+# positions that take a value: every kind of bare literal is tried there (a literal accepted where the model or a
+# renderer expects text is how type confusion starts)
+BARE_HOLES = [
+    ('bare_project_value', 'Project p {\n k: §\n}\n', False),
+    ('bare_table_prop', 'Table t {\n id int\n k: §\n}\n', True),
+    ('bare_column_prop', 'Table t {\n id int [pk, k: §]\n}\n', True),
+    ('bare_note', 'Table t {\n id int [note: §]\n Note: §\n}\n', False),
+    ('bare_index_name', 'Table t {\n id int\n indexes {\n id [name: §, type: §]\n }\n}\n', False),
+    ('bare_enum_note', 'Enum e {\n a [note: §]\n}\n', False),
+    ('bare_sticky', 'Note n {\n §\n}\n', False),
+    ('bare_group', T2 + 'TableGroup g [color: §, note: §] {\n t\n}\n', False),
+    ('bare_header', 'Table t [headercolor: §] {\n id int\n}\n', False),
+    ('bare_ref_settings', T2 + 'Ref: t.id > u.id [delete: §, update: §]\n', False),
+    ('bare_default', 'Table t {\n id int [default: §]\n}\n', False),
+    ('bare_project_name', 'Project § {\n}\nTableGroup § {\n}\nNote § {\n \'x\'\n}\nEnum § {\n §\n}\n', False),
+]
+BARE = ['1', '0', '007', '1.5', '0.0', 'true', 'false', 'True', 'null', 'NULL', '#fff', '#aabbcc', '`x`', '``', 'x', 'cascade', 'btree',
+        "'s'", '"d"', "'''t'''", '-1', '1e5', '.5', '1.', 'pk', 'unique', 'not null', 'note', '(1)', '[1]', '{1}', '1, 2', "'a' 'b'", '']
+
 TOKENS = [
     'Table', 'table', 'TABLE', 'Enum', 'enum', 'Ref', 'ref', 'ref:', 'Ref:', 'TableGroup', 'tablegroup',
     'Project', 'project', 'Note', 'note', 'note:', 'Note:', 'indexes', 'Indexes', 'as', 'pk', 'unique',
@@ -219,6 +238,10 @@ def shard(ctx: Ctx):
         case = dict(text=tpl.replace('§', s), allow_properties=props, gen=f'hole:{hname}')
         ctx.add(evaluate(case, ctx))
     ctx.exhaustive_arms.append(f'holes: all strings of length <= {maxlen} over {len(ALPHABET)} symbols x {len(HOLES)} holes')
+    for k, (b, (hname, tpl, props)) in enumerate((b, h) for b in BARE for h in BARE_HOLES):
+        if k % ctx.nshards == ctx.shard:
+            ctx.add(evaluate(dict(text=tpl.replace('§', b), allow_properties=props, gen=f'bare:{hname}'), ctx))
+    ctx.exhaustive_arms.append(f'bare literals: {len(BARE)} literals x {len(BARE_HOLES)} value positions')
 
     n = (250 if quick else 2500)
     both = st.one_of(soup(), spaced_soup())
